@@ -546,6 +546,15 @@ func TestVerifC08(t *testing.T) {
 			snaps = append(snaps, s)
 		}
 		newest := snaps[newestIdx]
+		if !v7 && r.Chance(15) {
+			// an entry with an even newer meta.json that has lost its <id>.db: not a snapshot; the
+			// upgrade falls back to the newest complete one (C08.newest_incomplete_fallback_witness)
+			g := c08Snap{nat: n + 1, term: 3, index: uint64(200 + r.Intn(10)), content: 1, hasMeta: true, hasData: false, hasDir: true}
+			e.ids[g.id()] = g.nat
+			e.idStr[g.nat] = g.id()
+			snaps = append(snaps, g)
+			rep.Count("newest-entry-incomplete")
+		}
 		kind := "v8"
 		if v7 {
 			kind = "v7"
